@@ -5,7 +5,7 @@ from .. import proofgate, composer
 
 THEOREMS = ["C11_truncate_layout", "C11_decomposition_layout", "C11_canonical_guard", "C11_split_sound",
             "C11_truncate_sound", "C11_decomposition_sound", "C11_decomposition_complete_any",
-            "C11_decomposition_alias_refuted"]
+            "C11_decomposition_alias_refuted", "C11_canonical_guard_complete", "C11_split_complete", "C11_truncate_complete"]
 FIRST = 6   # witnesses of Composer::initialized()
 
 def values_for(N, rng, quick):
